@@ -60,44 +60,106 @@ func packageVars(dir string, exportedOnly bool) (pkgName string, vars []string, 
 	return
 }
 
+// modPkg is one package of the module under test.
+type modPkg struct {
+	dir, rel, importPath, name string
+	vars, exported, files      []string
+	importsRoot                bool
+}
+
+func modulePath() string {
+	data, err := os.ReadFile(filepath.Join(repoDir, "go.mod"))
+	if err != nil {
+		die("%v", err)
+	}
+	for _, l := range strings.Split(string(data), "\n") {
+		if strings.HasPrefix(strings.TrimSpace(l), "module ") {
+			return strings.TrimSpace(strings.TrimPrefix(strings.TrimSpace(l), "module "))
+		}
+	}
+	die("no module line in go.mod")
+	return ""
+}
+
+// modulePackages lists the library packages of the module (root first): every directory with
+// non-test Go files that is not a command (package main), not hidden and not testdata.
+func modulePackages() []modPkg {
+	mod := modulePath()
+	var out []modPkg
+	filepath.Walk(repoDir, func(path string, fi os.FileInfo, err error) error {
+		if err != nil || !fi.IsDir() {
+			return nil
+		}
+		base := filepath.Base(path)
+		if path != repoDir && (strings.HasPrefix(base, ".") || strings.HasPrefix(base, "_") || base == "testdata" || base == "vendor") {
+			return filepath.SkipDir
+		}
+		name, vars, files, err := packageVars(path, false)
+		if err != nil || len(files) == 0 || name == "main" {
+			return nil
+		}
+		_, exp, _, _ := packageVars(path, true)
+		rel, _ := filepath.Rel(repoDir, path)
+		p := modPkg{dir: path, rel: rel, name: name, vars: vars, exported: exp, files: files, importPath: mod}
+		if rel != "." {
+			p.importPath = mod + "/" + filepath.ToSlash(rel)
+		}
+		// does it import the root package (then the root cannot import it back)?
+		for _, f := range files {
+			fset := token.NewFileSet()
+			af, err := parser.ParseFile(fset, filepath.Join(path, f), nil, parser.ImportsOnly)
+			if err != nil {
+				continue
+			}
+			for _, im := range af.Imports {
+				if strings.Trim(im.Path.Value, "\"") == mod {
+					p.importsRoot = true
+				}
+			}
+		}
+		out = append(out, p)
+		return nil
+	})
+	sort.SliceStable(out, func(i, j int) bool { return out[i].rel == "." && out[j].rel != "." })
+	return out
+}
+
 // redirectImports writes, for every non-test file of the root package that
 // imports `from`, a copy in scratch whose import is redirected to `to` (keeping
 // the local name), and returns the overlay entries original -> copy.
 func redirectImports(from, to, defaultName string) map[string]string {
-	_, _, files, err := packageVars(repoDir, false)
-	if err != nil {
-		die("scanning %s: %v", repoDir, err)
-	}
 	out := map[string]string{}
-	for _, name := range files {
-		fset := token.NewFileSet()
-		path := filepath.Join(repoDir, name)
-		f, err := parser.ParseFile(fset, path, nil, parser.ParseComments)
-		if err != nil {
-			die("%v", err)
-		}
-		changed := false
-		for _, im := range f.Imports {
-			if im.Path.Value == fmt.Sprintf("%q", from) {
-				im.Path.Value = fmt.Sprintf("%q", to)
-				if im.Name == nil {
-					im.Name = ast.NewIdent(defaultName)
-				}
-				changed = true
+	for pi, p := range modulePackages() {
+		for _, name := range p.files {
+			fset := token.NewFileSet()
+			path := filepath.Join(p.dir, name)
+			f, err := parser.ParseFile(fset, path, nil, parser.ParseComments)
+			if err != nil {
+				die("%v", err)
 			}
+			changed := false
+			for _, im := range f.Imports {
+				if im.Path.Value == fmt.Sprintf("%q", from) {
+					im.Path.Value = fmt.Sprintf("%q", to)
+					if im.Name == nil {
+						im.Name = ast.NewIdent(defaultName)
+					}
+					changed = true
+				}
+			}
+			if !changed {
+				continue
+			}
+			var b bytes.Buffer
+			if err := format.Node(&b, fset, f); err != nil {
+				die("printing %s: %v", name, err)
+			}
+			dst := filepath.Join(scratch, fmt.Sprintf("redir_%s_%d_%s", strings.Replace(to, "/", "_", -1), pi, name))
+			if err := os.WriteFile(dst, b.Bytes(), 0644); err != nil {
+				die("%v", err)
+			}
+			out[path] = dst
 		}
-		if !changed {
-			continue
-		}
-		var b bytes.Buffer
-		if err := format.Node(&b, fset, f); err != nil {
-			die("printing %s: %v", name, err)
-		}
-		dst := filepath.Join(scratch, "redir_"+strings.Replace(to, "/", "_", -1)+"_"+name)
-		if err := os.WriteFile(dst, b.Bytes(), 0644); err != nil {
-			die("%v", err)
-		}
-		out[path] = dst
 	}
 	return out
 }
@@ -106,35 +168,49 @@ func redirectImports(from, to, defaultName string) map[string]string {
 // current tree and returns the path of an overlay file that adds it to /repo
 // without writing into /repo.
 func writeOverlay(extra ...map[string]string) string {
-	_, vars, _, err := packageVars(repoDir, false)
-	if err != nil {
-		die("scanning %s: %v", repoDir, err)
+	pkgs := modulePackages()
+	if len(pkgs) == 0 || pkgs[0].rel != "." {
+		die("no root package found in %s", repoDir)
 	}
-	var wl []string
-	wdir := filepath.Join(repoDir, "internal", "wordlist")
-	if _, err := os.Stat(wdir); err == nil {
-		_, wl, _, err = packageVars(wdir, true)
-		if err != nil {
-			die("scanning %s: %v", wdir, err)
-		}
-	}
+	root := pkgs[0]
+	accessors := map[string]string{} // overlay entries for the per-package accessors
 	var b bytes.Buffer
-	b.WriteString("// Code generated by vcheck from the current tree; never written into the repository.\n\n//go:build verif\n// +build verif\n\npackage bip39\n\n")
-	if len(wl) > 0 {
-		b.WriteString("import verifwordlist \"github.com/islishude/bip39/internal/wordlist\"\n\n")
+	b.WriteString("// Code generated by vcheck from the current tree; never written into the repository.\n\n//go:build verif\n// +build verif\n\npackage " + root.name + "\n\n")
+	var merged []string
+	for i, p := range pkgs[1:] {
+		if p.importsRoot || len(p.vars) == 0 {
+			continue
+		}
+		alias := fmt.Sprintf("verifpkg%d", i)
+		fmt.Fprintf(&b, "import %s %q\n", alias, p.importPath)
+		prefix := filepath.Base(p.rel)
+		merged = append(merged, fmt.Sprintf("\tfor k, v := range %s.VerifStateVars() {\n\t\tm[%q+k] = v\n\t}\n", alias, prefix+"."))
+		var pb bytes.Buffer
+		pb.WriteString("// Code generated by vcheck from the current tree; never written into the repository.\n\n//go:build verif\n// +build verif\n\npackage " + p.name + "\n\n// VerifStateVars returns a pointer to every package-level variable.\nfunc VerifStateVars() map[string]interface{} {\n\treturn map[string]interface{}{\n")
+		for _, v := range p.vars {
+			fmt.Fprintf(&pb, "\t\t%q: &%s,\n", v, v)
+		}
+		pb.WriteString("\t}\n}\n")
+		pgen := filepath.Join(scratch, fmt.Sprintf("zz_verif_state_gen_%d.go", i))
+		if err := os.WriteFile(pgen, pb.Bytes(), 0644); err != nil {
+			die("%v", err)
+		}
+		accessors[filepath.Join(p.dir, "zz_verif_state_gen.go")] = pgen
 	}
-	b.WriteString("// VerifStateVars returns a pointer to every package-level variable.\nfunc VerifStateVars() map[string]interface{} {\n\treturn map[string]interface{}{\n")
-	for _, v := range vars {
+	b.WriteString("\n// VerifStateVars returns a pointer to every package-level variable of the module's packages.\nfunc VerifStateVars() map[string]interface{} {\n\tm := map[string]interface{}{\n")
+	for _, v := range root.vars {
 		fmt.Fprintf(&b, "\t\t%q: &%s,\n", v, v)
 	}
-	for _, v := range wl {
-		fmt.Fprintf(&b, "\t\t%q: &verifwordlist.%s,\n", "wordlist."+v, v)
+	b.WriteString("\t}\n")
+	for _, m := range merged {
+		b.WriteString(m)
 	}
-	b.WriteString("\t}\n}\n")
+	b.WriteString("\treturn m\n}\n")
 	gen := filepath.Join(scratch, "zz_verif_state_gen.go")
 	if err := os.WriteFile(gen, b.Bytes(), 0644); err != nil {
 		die("%v", err)
 	}
+	extra = append(extra, accessors)
 	ov := map[string]map[string]string{"Replace": {filepath.Join(repoDir, "zz_verif_state_gen.go"): gen}}
 	tag := ""
 	for _, ex := range extra {
@@ -155,33 +231,31 @@ func writeOverlay(extra ...map[string]string) string {
 // os.Getenv / os.LookupEnv / syscall.Getenv with a literal name: the process
 // environment is an input the harness has to own.
 func envVarsRead() []string {
-	_, _, files, err := packageVars(repoDir, false)
-	if err != nil {
-		die("scanning %s: %v", repoDir, err)
-	}
 	seen := map[string]bool{}
-	for _, name := range files {
-		fset := token.NewFileSet()
-		f, err := parser.ParseFile(fset, filepath.Join(repoDir, name), nil, 0)
-		if err != nil {
-			die("%v", err)
-		}
-		ast.Inspect(f, func(n ast.Node) bool {
-			call, ok := n.(*ast.CallExpr)
-			if !ok || len(call.Args) < 1 {
-				return true
+	for _, p := range modulePackages() {
+		for _, name := range p.files {
+			fset := token.NewFileSet()
+			f, err := parser.ParseFile(fset, filepath.Join(p.dir, name), nil, 0)
+			if err != nil {
+				die("%v", err)
 			}
-			sel, ok := call.Fun.(*ast.SelectorExpr)
-			if !ok || (sel.Sel.Name != "Getenv" && sel.Sel.Name != "LookupEnv") {
-				return true
-			}
-			if lit, ok := call.Args[0].(*ast.BasicLit); ok && lit.Kind == token.STRING {
-				if v, err := strconv.Unquote(lit.Value); err == nil {
-					seen[v] = true
+			ast.Inspect(f, func(n ast.Node) bool {
+				call, ok := n.(*ast.CallExpr)
+				if !ok || len(call.Args) < 1 {
+					return true
 				}
-			}
-			return true
-		})
+				sel, ok := call.Fun.(*ast.SelectorExpr)
+				if !ok || (sel.Sel.Name != "Getenv" && sel.Sel.Name != "LookupEnv") {
+					return true
+				}
+				if lit, ok := call.Args[0].(*ast.BasicLit); ok && lit.Kind == token.STRING {
+					if v, err := strconv.Unquote(lit.Value); err == nil {
+						seen[v] = true
+					}
+				}
+				return true
+			})
+		}
 	}
 	var out []string
 	for v := range seen {
